@@ -273,7 +273,19 @@ def _shapes_for(cls, tier):
             b = ShapeBuilder({key: v}, 'max')
             r = b.node(cls, 'node')
             out.append(('%s=%s' % ('/'.join(str(k) for k in key), v), r, b))
-    # combinations that matter on their own (also in the quick tier): an attribute target with no value is a bare annotation
+    # a function whose body rebinds a name under `nonlocal`: the rebinding belongs to whichever enclosing function owns the name,
+    # which the visitor of the definition cannot know - nothing may become a local of the scope the definition stands in
+    if cls in ('FunctionDef', 'AsyncFunctionDef'):
+        b = ShapeBuilder({}, 'max')
+        r = b.node(cls, 'node')
+        nl = SymNode('Nonlocal', 'node.body[0]', 'stmt', {'names': [b.ident('node.body[0].names[0]', 'nl_rebound')]})
+        tgt = SymNode('Name', 'node.body[1].targets[0]', 'expr', {'id': b.ident('node.body[1].targets[0].id', 'nl_rebound'),
+                                                                  'ctx': b.ctx('Store', 'node.body[1].targets[0]')})
+        asg = SymNode('Assign', 'node.body[1]', 'stmt', {'targets': [tgt], 'value': b.opaque('expr', 'node.body[1].value'),
+                                                         'type_comment': None})
+        r.fields['body'] = [nl, asg]
+        r.nested_body = True
+        out.append(('body rebinds a nonlocal name', r, b))
     for combo in EXTRA_COMBINATIONS.get(cls, []):
         chosen = {}
         for (k1, v1) in singles:
@@ -366,7 +378,9 @@ class Extractor(object):
         it.nat_get_expr_end = lambda a, k: self.m_get_expr_end(a)
         it.nat_insert_loc = lambda a, k: self.m_insert_loc(a)
         it.nat_get_first_body_node_loc = lambda a, k: self.m_first_body(a)
-        it.method_natives[('SourceScope', 'find_id_loc')] = self.m_find_id_loc
+        from . import textsearch
+        for _rel, cname, mname, _fn in textsearch.search_helpers(self.repo):
+            it.method_natives[(cname, mname)] = (lambda cn, mn: lambda i, so, a, k: self.m_find_id_loc(i, so, a, k, (cn, mn)))(cname, mname)
         it.attr_hooks['extract_visitor'] = self.h_visitor_attr
         it.attr_hooks['Scope'] = self.h_scope_attr
         it.membership_policy = 'single'
@@ -414,14 +428,14 @@ class Extractor(object):
             return None
         return LocExpr('first_body', body[0].path.rsplit('[', 1)[0])
 
-    def m_find_id_loc(self, it, selfobj, args, kwargs):
+    def m_find_id_loc(self, it, selfobj, args, kwargs, helper=('SourceScope', 'find_id_loc')):
         ident, start = args[0], args[1]
         shift = args[2] if len(args) > 2 else kwargs.get('shift', 0)
         delims = args[3] if len(args) > 3 else kwargs.get('delimeters', True)
         spath = start[0].path if isinstance(start, tuple) and isinstance(start[0], SymPos) else repr(start)
         extras = tuple(('arg%d' % i, a) for i, a in enumerate(args[4:])) + \
             tuple(sorted((k, v) for k, v in kwargs.items() if k not in ('shift', 'delimeters')))
-        return LocExpr('text_search', spath, (str(ident), getattr(ident, 'path', None), shift, delims, extras))
+        return LocExpr('text_search', spath, (str(ident), getattr(ident, 'path', None), shift, delims, extras, helper))
 
     def h_visitor_attr(self, it, obj, attr):
         if attr == 'visit':
@@ -500,13 +514,28 @@ class Extractor(object):
                 self.do_visit(vis, v)
         return None
 
+    def new_flow(self, hint, scope, parents, label):
+        """A region stub: whatever supp's own Flow.__init__ gives a region, plus the attributes known here (a region left by an
+        opaque child is in the state the constructor leaves it in)."""
+        it = self.it
+        fl = Obj(self.facts.classes['Flow'], {}, label)
+        finit = self.facts.classes['Flow'].lookup('__init__')
+        if finit is not None:
+            n = len(it.objs)
+            try:
+                it.call(FuncVal(finit.rel, finit.node, None, fl, finit.cls), [hint, scope], {})
+            except (InterpRaise, Uninterpretable):
+                pass
+            del it.objs[n:]
+        fl.attrs.update({'hint': hint, 'scope': scope, '_names': [], 'parents': parents})
+        return fl
+
     def sink(self, vis, node):
         it = self.it
         cur = vis.attrs['flow']
         it.effect('visit', node.path, cur)
         if node.sort in ('expr', 'stmt'):
-            ex = Obj(self.facts.classes['Flow'], {'hint': 'exit', 'scope': cur.attrs.get('scope'),
-                                                  '_names': [], 'parents': [cur]}, 'exit(%s)' % node.path)
+            ex = self.new_flow('exit', cur.attrs.get('scope'), [cur], 'exit(%s)' % node.path)
             ex.exit_of = (node.path, cur)
             it.objs.append(ex)
             vis.attrs['flow'] = ex
@@ -531,11 +560,13 @@ class Extractor(object):
             init = facts.classes['SourceScope'].lookup('__init__')
             if init is None:
                 raise AnalysisError('SourceScope.__init__ vanished')
-            it.call(FuncVal(init.rel, init.node, None, top, init.cls), [Unknown('source')], {})
+            # the text: opaque, but for the identifier text search, which is summarised wherever it lives
+            source = Obj(facts.classes['Source'], {}, 'SOURCE') if 'Source' in facts.classes else Unknown('source')
+            it.call(FuncVal(init.rel, init.node, None, top, init.cls), [source], {})
             for v in top.attrs.values():
                 if isinstance(v, list):
                     del v[:]
-            top.attrs.update({'source': Unknown('source'),
+            top.attrs.update({'source': source,
                               'locals': SymSet('TOP.locals'), 'globals': SymSet('TOP.globals'),
                               'top': top, 'parent': Unknown('builtin_scope')})
             curscope = Obj(facts.classes['Scope'], {}, 'CURSCOPE')
@@ -552,7 +583,8 @@ class Extractor(object):
                 for k, v in list(holder.attrs.items()):
                     if isinstance(v, (set, frozenset)):
                         holder.attrs[k] = SymSet('%s.%s' % (label, k))
-            cur = Obj(facts.classes['Flow'], {'hint': 'CUR', 'scope': curscope, '_names': [], 'parents': []}, 'CUR')
+            # the region the statement starts in: whatever supp's own Flow.__init__ gives a region (plus the attributes known here)
+            cur = self.new_flow('CUR', curscope, [], 'CUR')
             curscope.attrs.update({'parent': Unknown('CURSCOPE.parent'), 'top': top,
                                    'locals': SymSet('CURSCOPE.locals'), 'globals': SymSet('CURSCOPE.globals'),
                                    'flow': cur})
@@ -657,7 +689,15 @@ class Extractor(object):
                 for o in v:
                     if isinstance(o, tuple):
                         attr_targets.update(x.path for x in o if isinstance(x, SymNode) and x.cls == 'Attribute')
-        ps.top_state = {'global_names': gn, 'registered': registered, 'attr_targets': attr_targets}
+        # the module scope's plain bookkeeping tables (strings only), whatever they are called and however they are typed
+        tables = {}
+        for k, v in top.attrs.items():
+            if isinstance(v, (list, set, tuple)) and v and all(isinstance(x, str) for x in v):
+                tables[k] = type(v)(str(x) for x in v)
+            elif isinstance(v, dict) and v and all(isinstance(x, str) for x in v) and \
+                    all(isinstance(y, (list, set, tuple)) and all(isinstance(z, str) for z in y) for y in v.values()):
+                tables[k] = {str(x): type(y)(str(z) for z in y) for x, y in v.items()}
+        ps.top_state = {'global_names': gn, 'registered': registered, 'attr_targets': attr_targets, 'tables': tables}
         ps.tokens = tokens
         ps.rtok = rtok
         ps.stok = stok
@@ -704,9 +744,9 @@ def loc_kind(loc):
     if isinstance(loc, tuple) and len(loc) == 2:
         a, b = loc
         if isinstance(a, SymPos) and isinstance(b, SymPos):
-            if a.part == 'line' and b.part == 'col' and a.path == b.path and not a.delta and not b.delta:
+            if a.part == 'line' and b.part == 'col' and a.path == b.path and not a.delta and not b.delta and not a.lens and not b.lens:
                 return ('np', a.path, None)
-            return ('arith', (a.path, a.part, a.delta), (b.path, b.part, b.delta))
+            return ('arith', (a.path, a.part, a.delta) + ((a.lens,) if a.lens else ()), (b.path, b.part, b.delta) + ((b.lens,) if b.lens else ()))
         if isinstance(a, int) and isinstance(b, int):
             return ('const', loc, None)
     return ('other', repr(loc), None)
